@@ -109,6 +109,7 @@ def check(repo: Repo, run: Run) -> None:
 
     # ---- R4 renderings identical except for the suffix
     n_r4 = 0
+    underivable = []
     for e in twins:
         base_key = e.key[: -len("_nocancel")]
         base = eff.get(base_key)
@@ -125,8 +126,8 @@ def check(repo: Repo, run: Run) -> None:
             d_f = D.decode(fake)
         scope = e.func_name
         if d_t.segs is None or d_f.segs is None:
-            run.ob("R4", e.module.name, scope, e.key, False,
-                   f"rendering of {e.key} could not be derived: {(d_t.problems + d_f.problems)[:2]}", line=e.lineno)
+            # not a verdict about the property: the analysis cannot see what this pair renders (reported after the other rules)
+            underivable.append(f"{e.key} ({scope}): rendering could not be derived: {(d_t.problems + d_f.problems)[:2]}")
             continue
         vt = _flat_text_variants(d_t.segs)
         vf = _flat_text_variants(d_f.segs)
@@ -155,4 +156,7 @@ def check(repo: Repo, run: Run) -> None:
                "" if ok else f"{e.key} and {base_key} do not render alike: {detail}",
                facts={"nocancel": render.text_of(d_t.segs)[:200], "base": render.text_of(d_f.segs)[:200]},
                line=e.func.lineno)
+    if underivable:
+        from ..model import AnalysisError
+        raise AnalysisError(f"C17/R4: {len(underivable)} twin rendering(s) not derivable, first: {underivable[0]}")
     run.floor("R4", "twin renderings compared", n_r4, 25)
